@@ -167,10 +167,19 @@ func pathAvoidingE(fn *ssa.Function, from ssa.Instruction, isTarget, isCut func(
 			if _, isRet := in.(*ssa.Return); isRet && s.b.Parent() != fn {
 				// return of a virtually inlined helper: control continues after its only call site
 				if call := inlinedInto(s.b.Parent()); call != nil {
-					key := contKey{call}
-					if !visitedCont[key] {
-						visitedCont[key] = true
-						work = append(work, start{call.Block(), instrIndex(call) + 1})
+					// `x, err := helper(); if err != nil {…}`: a return with a provably non-nil (nil) error continues on
+					// the err != nil (err == nil) branch only
+					if succ := errBranchAfter(call, in.(*ssa.Return)); succ != nil {
+						if !visited[succ] {
+							visited[succ] = true
+							work = append(work, start{succ, 0})
+						}
+					} else {
+						key := contKey{call}
+						if !visitedCont[key] {
+							visitedCont[key] = true
+							work = append(work, start{call.Block(), instrIndex(call) + 1})
+						}
 					}
 				}
 				cut = true
@@ -863,7 +872,108 @@ func fieldOfAddr(v ssa.Value) (FieldRef, ssa.Value, bool) {
 	if !ok {
 		return FieldRef{}, nil, false
 	}
-	return FieldRef{typeNameOf(fa.X.Type()), fieldName(fa.X.Type(), fa.Field)}, fa.X, true
+	fr := mkFieldRef(fa.X.Type(), fa.Field)
+	base := fa.X
+	// x.sub.f with sub a uniquely embedded sub-struct: the base is x
+	if outer, isOuter := fa.X.(*ssa.FieldAddr); isOuter {
+		if _, uniq := uniqueEmbedding[typeNameOf(fa.X.Type())]; uniq {
+			base = outer.X
+		}
+	}
+	return fr, base, true
+}
+
+// uniqueEmbedding: named struct types of the analysed package that occur exactly once, as a by-value field of another
+// struct of the package, and in no other field, slice, map, pointer or channel type: inner type name -> (outer type, field).
+// A field of such a sub-struct is a field of the outer struct (grouping fields into a sub-struct, embedding a config
+// struct), also inside the sub-struct's own methods.
+var uniqueEmbedding = map[string]FieldRef{}
+
+// mkFieldRef names field i of struct type t, attributing fields of uniquely embedded sub-structs to the outer struct.
+func mkFieldRef(t types.Type, i int) FieldRef {
+	fr := FieldRef{typeNameOf(t), fieldName(t, i)}
+	for d := 0; d < 3; d++ {
+		outer, ok := uniqueEmbedding[fr.Type]
+		if !ok {
+			break
+		}
+		fr = FieldRef{outer.Type, outer.Field + "." + fr.Field}
+	}
+	return fr
+}
+
+// computeUniqueEmbedding fills uniqueEmbedding from the root package's struct types.
+func computeUniqueEmbedding(pkg *types.Package) {
+	uniqueEmbedding = map[string]FieldRef{}
+	count := map[string]int{}
+	where := map[string]FieldRef{}
+	elsewhere := map[string]bool{}
+	seenStruct := map[*types.Struct]bool{}
+	var mention func(t types.Type, depth int)
+	mention = func(t types.Type, depth int) {
+		if depth > 4 {
+			return
+		}
+		switch x := types.Unalias(t).(type) {
+		case *types.Named:
+			if x.Obj().Pkg() == pkg {
+				elsewhere[x.Obj().Name()] = true
+			}
+			for i := 0; i < x.TypeArgs().Len(); i++ {
+				mention(x.TypeArgs().At(i), depth+1)
+			}
+		case *types.Pointer:
+			mention(x.Elem(), depth+1)
+		case *types.Slice:
+			mention(x.Elem(), depth+1)
+		case *types.Array:
+			mention(x.Elem(), depth+1)
+		case *types.Map:
+			mention(x.Key(), depth+1)
+			mention(x.Elem(), depth+1)
+		case *types.Chan:
+			mention(x.Elem(), depth+1)
+		case *types.Signature:
+			for i := 0; i < x.Params().Len(); i++ {
+				mention(x.Params().At(i).Type(), depth+1)
+			}
+			for i := 0; i < x.Results().Len(); i++ {
+				mention(x.Results().At(i).Type(), depth+1)
+			}
+		}
+	}
+	for _, name := range pkg.Scope().Names() {
+		tn, ok := pkg.Scope().Lookup(name).(*types.TypeName)
+		if !ok {
+			continue
+		}
+		st, ok := tn.Type().Underlying().(*types.Struct)
+		if !ok {
+			// other declared types may mention struct types (func types, slices)
+			mention(tn.Type().Underlying(), 0)
+			continue
+		}
+		if seenStruct[st] {
+			continue // `type A B`: the same struct under another name
+		}
+		seenStruct[st] = true
+		for i := 0; i < st.NumFields(); i++ {
+			ft := types.Unalias(st.Field(i).Type())
+			if n, isN := ft.(*types.Named); isN && n.Obj().Pkg() == pkg && n.TypeArgs().Len() == 0 {
+				if _, isStruct := n.Underlying().(*types.Struct); isStruct {
+					count[n.Obj().Name()]++
+					where[n.Obj().Name()] = FieldRef{tn.Name(), st.Field(i).Name()}
+					continue
+				}
+			}
+			mention(ft, 0)
+		}
+	}
+	for inner, n := range count {
+		if n == 1 && !elsewhere[inner] && where[inner].Type != inner {
+			uniqueEmbedding[inner] = where[inner]
+		}
+	}
 }
 
 // loadedField: v is a load of x.f (either *(&x.f) or x.f on a struct value) -> FieldRef and base.
@@ -875,7 +985,7 @@ func loadedField(v ssa.Value) (FieldRef, ssa.Value, bool) {
 			return fieldOfAddr(x.X)
 		}
 	case *ssa.Field:
-		return FieldRef{typeNameOf(x.X.Type()), fieldName(x.X.Type(), x.Field)}, x.X, true
+		return mkFieldRef(x.X.Type(), x.Field), x.X, true
 	}
 	return FieldRef{}, nil, false
 }
@@ -1546,4 +1656,54 @@ func capturedValue(a *ssa.Alloc, fv *ssa.FreeVar) ssa.Value {
 		return nil
 	}
 	return best.Val
+}
+
+// errBranchAfter: call is `…, err := helper(…)` immediately tested by `if err != nil` (the If ending the call's block, with
+// nothing but value extraction in between), and ret returns a provably non-nil error or the nil constant: the successor
+// block control continues in. nil when the idiom is not recognised.
+func errBranchAfter(call *ssa.Call, ret *ssa.Return) *ssa.BasicBlock {
+	n := len(ret.Results)
+	if n == 0 || types.TypeString(ret.Results[n-1].Type(), nil) != "error" {
+		return nil
+	}
+	isNil := isNilConst(ret.Results[n-1])
+	if !isNil {
+		if nn, _ := nonNilError(ret.Results[n-1], ret, 0); !nn {
+			return nil
+		}
+	}
+	b := call.Block()
+	idx := instrIndex(call)
+	ifi, ok := b.Instrs[len(b.Instrs)-1].(*ssa.If)
+	if !ok {
+		return nil
+	}
+	for _, in := range b.Instrs[idx+1 : len(b.Instrs)-1] {
+		switch in.(type) {
+		case *ssa.Extract, *ssa.BinOp, *ssa.DebugRef:
+		default:
+			return nil
+		}
+	}
+	f := normFact(EdgeFact{ifi.Cond, true})
+	cmp, ok := f.Cond.(*ssa.BinOp)
+	if !ok || !isNilConst(cmp.Y) || (cmp.Op != token.NEQ && cmp.Op != token.EQL) {
+		return nil
+	}
+	var tested ssa.Value = cmp.X
+	if n > 1 {
+		ex, isEx := tested.(*ssa.Extract)
+		if !isEx || ex.Tuple != ssa.Value(call) || ex.Index != n-1 {
+			return nil
+		}
+	} else if tested != ssa.Value(call) {
+		return nil
+	}
+	// edge on which "err != nil" holds
+	nonNilOnTrue := (cmp.Op == token.NEQ) == f.True
+	takeTrue := nonNilOnTrue != isNil
+	if takeTrue {
+		return b.Succs[0]
+	}
+	return b.Succs[1]
 }
